@@ -288,15 +288,24 @@ func genC12(c *Ctx) {
 		c.Fail("c12.source", none, f.key, f.what)
 	}
 	// the wall-clock scenarios of the silence rule (12 s each) overlap everything else
-	alive := make([]*c12Job, 3)
-	aliveDone := make(chan int, 3)
+	alive := make([]*c12Job, 5)
+	aliveDone := make(chan int, 5)
 	for mode := range alive {
 		mode := mode
-		alive[mode] = &c12Job{kind: "c12.seq", class: []string{"seq|alive|pong-keeps-alive", "seq|alive|nonce-keeps-alive", "seq|alive|silent-reconnects"}[mode]}
+		alive[mode] = &c12Job{kind: "c12.seq", class: []string{"seq|alive|pong-keeps-alive", "seq|alive|nonce-keeps-alive", "seq|alive|silent-reconnects",
+			"seq|outage|short", "seq|outage|long"}[mode]}
 		go func() {
 			j := alive[mode]
 			acts := sx.L(sx.L(sx.A("alive"), sx.Nat(mode)))
-			events, fails, bad := runC12Alive(mode)
+			var events []sx.V
+			var fails []c12Fail
+			var bad string
+			if mode < 3 {
+				events, fails, bad = runC12Alive(mode)
+			} else {
+				acts = sx.L(sx.L(sx.A("outage"), sx.Nat(mode-3)))
+				events, fails, bad = runC12Outage(mode == 4)
+			}
 			j.in = sx.L(sx.Nat(1), acts, sx.L(events...))
 			j.out, j.fails = sx.A("accept"), fails
 			if bad != "" && len(fails) == 0 {
